@@ -314,6 +314,33 @@ class Repo:
         fi = self._func(qualname)
         return self.flat(fi)
 
+    def merged(self, qualname: str, callees: Iterable[str]) -> FuncInfo:
+        """normal form of a function with the named (census) callees inlined as well, where they still exist: a rule about
+        a caller/callee pair then sees one unit, whether the logic lives in the callee, the caller, or moved between them"""
+        fi = self._func(qualname)
+        force = frozenset(q for q in callees if q in self.funcs)
+        key = (qualname, force)
+        cache = self.__dict__.setdefault("_merged_cache", {})
+        if key in cache:
+            return cache[key]
+        from .flatten import Flattener
+
+        fl = Flattener(self, force=force)
+        node = fl.flatten(fi)
+        if node is None:
+            cache[key] = fi
+            return fi
+        nfi = FuncInfo(fi.qualname, fi.name, node, fi.module, fi.cls, fi.parent)
+        nfi.inlined = list(fl.inlined)  # type: ignore[attr-defined]
+        for parent in ast.walk(node):
+            for child in ast.iter_child_nodes(parent):
+                self.parents[id(child)] = parent
+        if id(fi.node) in self.parents:
+            self.parents[id(node)] = self.parents[id(fi.node)]
+        self._mark_nodes(node, nfi)
+        cache[key] = nfi
+        return nfi
+
     def scan_funcs(self) -> list[FuncInfo]:
         """every function a whole-program rule must look at: all functions with newly extracted helpers
         inlined, minus the helpers that were absorbed into all of their call sites"""
@@ -611,6 +638,56 @@ class Repo:
                 return UNKNOWN
             return vals
         return UNKNOWN
+
+    def param_alias(self, fi: FuncInfo, pname: str) -> ast.AST | None:
+        """`self.<stable chain>` a parameter of a method always stands for: the method has exactly one call site in the
+        repo, it is `self.method(..)` in a method of the same class, and the actual argument is (a hoisted local of) an
+        attribute chain on self that nothing re-binds.  ("pass the value instead of re-reading the attribute")"""
+        cache = self.__dict__.setdefault("_param_alias", {})
+        key = (fi.qualname, pname)
+        if key in cache:
+            return cache[key]
+        cache[key] = None
+        if fi.cls is None or pname in ("self", "cls"):
+            return None
+        formals = [a.arg for a in fi.node.args.args]
+        if pname not in formals or not formals or formals[0] != "self":
+            return None
+        # the parameter must not be re-bound inside the method
+        if any(isinstance(x, ast.Name) and x.id == pname and isinstance(x.ctx, (ast.Store, ast.Del)) for x in ast.walk(fi.node)):
+            return None
+        sites = []
+        refs = 0
+        for g in self.funcs.values():
+            for x in ast.walk(g.node) if self.func_of_node.get(id(g.node)) is g or True else []:
+                if isinstance(x, ast.Attribute) and x.attr == fi.name and self.func_of_node.get(id(x)) is g:
+                    refs += 1
+                if isinstance(x, ast.Call) and isinstance(x.func, ast.Attribute) and x.func.attr == fi.name and self.func_of_node.get(id(x)) is g:
+                    sites.append((g, x))
+        if len(sites) != 1 or refs != 1:
+            return None
+        g, call = sites[0]
+        if g.cls is None or g.cls.name != fi.cls.name or not (isinstance(call.func.value, ast.Name) and call.func.value.id == "self"):
+            return None
+        idx = formals.index(pname) - 1
+        actual = call.args[idx] if idx < len(call.args) and not any(isinstance(a, ast.Starred) for a in call.args[:idx + 1]) else next((k.value for k in call.keywords if k.arg == pname), None)
+        if actual is None:
+            return None
+        from .util import _chain_mutable, _is_chain
+        e = actual
+        for _ in range(3):
+            if isinstance(e, ast.Name):
+                al = self.local_alias(e.id, g)
+                if al is None or isinstance(al, ast.Constant):
+                    break
+                e = al
+        if isinstance(e, ast.Attribute) and _is_chain(e) and not _chain_mutable(self, e):
+            root = e
+            while isinstance(root, ast.Attribute):
+                root = root.value
+            if isinstance(root, ast.Name) and root.id == "self":
+                cache[key] = e
+        return cache[key]
 
     def _stored_attr_names(self) -> set[str]:
         """attribute names assigned through any object anywhere in the repo (`x.name = ...`, also in tuple targets)"""
